@@ -252,9 +252,27 @@ pub struct RStyle {
     pub kwcase: bool,
     /// names may be written quoted after `.` / `:`
     pub quoting: bool,
+    /// quoted names and string literals use \uXXXX / \u{XXXX} / surrogate-pair spellings
+    pub esc: bool,
 }
 
-pub const PLAIN: RStyle = RStyle { spacing: false, kwcase: false, quoting: false };
+pub const PLAIN: RStyle = RStyle { spacing: false, kwcase: false, quoting: false, esc: false };
+
+/// quoted form with random escape spellings (same escapes as JSON strings plus `\u{XXXX}`)
+pub fn quote_esc(n: &str, rng: &mut Rng) -> String {
+    let mut out = Vec::new();
+    let st = crate::refjson::Style { ws: 0, esc: 2, numvar: false };
+    crate::refjson::write_string(n, &mut out, &st, rng);
+    String::from_utf8(out).unwrap()
+}
+
+fn q(n: &str, st: &RStyle, rng: &mut Rng) -> String {
+    if st.esc && rng.bool() {
+        quote_esc(n, rng)
+    } else {
+        quote(n)
+    }
+}
 
 pub fn name_is_raw_safe(n: &str) -> bool {
     // raw names end at any of these; backslash starts an escape; must be non-empty
@@ -327,6 +345,22 @@ fn r_idx(i: &Idx, out: &mut String, st: &RStyle, rng: &mut Rng) {
     }
 }
 
+pub fn r_lit_st(l: &Lit, out: &mut String, st: &RStyle, rng: &mut Rng) {
+    match l {
+        Lit::Str(s) => out.push_str(&q(s, st, rng)),
+        Lit::Num(Num::F(b)) => {
+            // an integer too large for 64 bits is still a number literal (it denotes the nearest double)
+            let f = f64::from_bits(*b);
+            if st.spacing && f.fract() == 0.0 && (f >= 18446744073709551616.0 || f < -9223372036854775808.0) && f.abs() < 1e40 && rng.bool() {
+                out.push_str(&format!("{:.0}", f));
+            } else {
+                r_lit(l, out, rng, st.spacing)
+            }
+        }
+        _ => r_lit(l, out, rng, st.spacing),
+    }
+}
+
 pub fn r_lit(l: &Lit, out: &mut String, rng: &mut Rng, numvar: bool) {
     match l {
         Lit::Null => out.push_str("null"),
@@ -361,14 +395,14 @@ fn r_steps(steps: &[Step], out: &mut String, st: &RStyle, rng: &mut Rng) {
                     NameStyle::Bracket => {
                         out.push('[');
                         sp(out, st, rng);
-                        out.push_str(&quote(n));
+                        out.push_str(&q(n, st, rng));
                         sp(out, st, rng);
                         out.push(']');
                     }
                     NameStyle::Dot | NameStyle::Colon => {
                         out.push(if *style == NameStyle::Dot { '.' } else { ':' });
                         if !raw_ok || (st.quoting && rng.chance(1, 3)) {
-                            out.push_str(&quote(n));
+                            out.push_str(&q(n, st, rng));
                         } else {
                             out.push_str(n);
                         }
@@ -419,7 +453,7 @@ fn r_steps(steps: &[Step], out: &mut String, st: &RStyle, rng: &mut Rng) {
 
 fn r_operand(o: &Operand, out: &mut String, st: &RStyle, rng: &mut Rng) {
     match o {
-        Operand::Lit(l) => r_lit(l, out, rng, st.spacing),
+        Operand::Lit(l) => r_lit_st(l, out, st, rng),
         Operand::Path(root, steps) => {
             out.push(if *root { '$' } else { '@' });
             r_steps(steps, out, st, rng);
